@@ -13,7 +13,7 @@ import math
 
 import numpy as np
 
-from fsmc import bases, tissue as T, fsutil, solvecase as SC
+from fsmc import bases, tissue as T, fsutil, solvecase as SC, pairs
 from fsmc.explorer import ProductSystem
 from fsmc.ref import tangent as RT, nnls as RN
 from checks import c02
@@ -74,6 +74,7 @@ def judge(at, cm, r, method, fit, viol, known, tags):
         row_j = {row: j for j, row in rows_got.items()}
         E = 0.0
         f1 = 0
+        f22 = 0
         for rr in range(0, r.M.shape[0], 2):
             jv = r.info["jvid"][row_j[rr]]
             for n in range(r.M.shape[1]):
@@ -97,6 +98,13 @@ def judge(at, cm, r, method, fit, viol, known, tags):
                     f1 += 1
                     continue
                 dgl = abs(g - a)
+                if dgl > bud and fit == "dlite" and len(pts) >= 3 and not straight and turning < 0.1 and dgl < 0.5:
+                    import forsys.virtual_edges as ve
+                    with fsutil.quiet():
+                        xc, yc = ve.calculate_circle_center(be.vertices, method=fit)
+                    if pairs.dlite_underconverged(pts, complex(xc, yc)):
+                        f22 += 1
+                        continue
                 E = max(E, dgl)
                 if dgl > bud:
                     viol.append({"what": "assembled coefficient pair differs from the analytic unit tangent beyond the fit budget and is not explained by component sign forcing",
@@ -105,6 +113,9 @@ def judge(at, cm, r, method, fit, viol, known, tags):
                         return True
         if f1:
             known.append({"id": "F1", "flipped_pairs": f1})
+        if f22:
+            known.append({"id": "F22", "pairs": f22})
+            f1 += f22      # no physics verdict on this instance
         # ---- (ii) the reported vector is the optimum for the assembled matrix
         A_fs, b_fs = RN.augment(r.M)
         lam = RN.best_multiplier(A_fs, b_fs, x)
